@@ -65,9 +65,12 @@ func (w *Waiter) Next() GenericDataType {
 	defer w.mu.Unlock()
 
 	for {
+		// Sample the context first: everything written before the cancellation
+		// is then guaranteed to be seen by the TryNext below.
+		done := w.isDone()
 		data, ok := w.Diode.TryNext()
 		if !ok {
-			if w.isDone() {
+			if done {
 				return nil
 			}
 
